@@ -1,12 +1,37 @@
 from .. import common as C
 
+C03_FILES = """core/internal/protocol/proxy.go core/internal/frag/frag.go core/server/udp.go core/client/udp.go
+extras/sniff/sniff.go extras/sniff/internal/quic/payload.go extras/sniff/internal/quic/header.go
+extras/sniff/internal/quic/packet_protector.go extras/obfs/salamander.go extras/obfs/conn.go extras/obfs/gecko.go
+extras/obfs/gecko_frame.go extras/realm/punch.go extras/realm/punch_conn.go extras/realm/stun.go
+extras/outbounds/speedtest/server.go extras/outbounds/speedtest/protocol.go""".split()
+
+
+def gen_sites():
+    C.gen_sites("C03", C03_FILES)
+
+
 CFG = {
+    "gen_hooks": [gen_sites],
     "props_module": "Hy.Props.C03",
     "extra_props_modules": ["Hy.Props.C03Speedtest"],
+    # C03 is about crashes: of the borrowed components' oracles only the panic clauses count here
+    # (their other clauses are decided by the owning property's check)
+    "oracle_filter_re": r"(?i)panic|runtime error|index out of range|slice bounds|nil pointer|fault|crash|allocat",
+    "corpus_from": {"frag": "C05", "sniff": "C17", "gecko": "C14"},
     "gen_modules": ["core", "extras"],
     "level": "proof",
     "streams": [
         {"mod": "extras", "component": "speedtest", "driver": "speedtest", "n": {"quick": 3000, "thorough": 100000}},
+        # the decoders owned by other properties, re-run here with their malformed/mutated streams (panic oracle + differential)
+        {"mod": "core", "component": "frag", "driver": "frag", "n": {"quick": 3000, "thorough": 100000}},
+        {"mod": "core", "component": "frame", "driver": "frame", "n": {"quick": 3000, "thorough": 100000}},
+        {"mod": "extras", "component": "salamander", "driver": "salamander", "n": {"quick": 1500, "thorough": 20000}},
+        {"mod": "extras", "component": "sniff", "driver": "sniff", "n": {"quick": 1500, "thorough": 40000}},
+        {"mod": "extras", "component": "punchcodec", "driver": "punchcodec", "n": {"quick": 2000, "thorough": 100000}},
+        {"mod": "extras", "component": "punchconn", "driver": "punchconn", "reset_re": "^(reset|conc)", "n": {"quick": 1500, "thorough": 50000}},
+        {"kind": "gotest", "mod": "extras", "pkg": "./obfs", "run": "^TestVerifGecko$", "component": "gecko", "driver": "gecko",
+         "reset_re": "^reset", "n": {"quick": 1500, "thorough": 60000}, "timeout": 3000},
     ],
     "rule": "per decoder: structured mostly-valid inputs from the repo's own encoders mutated at field boundaries, truncations, "
             "random bytes, each under a random chunking; inputs are copied into exact-size allocations (cap == len) so an over-read "
@@ -18,9 +43,9 @@ CFG = {
 }
 
 MANIFEST = {
-    "text": "Proof (growing): per-decoder totality theorems over Lean models in which every Go index/slice/make/conversion is an "
+    "text": "Proof: per-decoder totality theorems over Lean models in which every Go index/slice/make/conversion is an "
             "explicit possibly-panicking operation, plus a kernel-decided table of the fault sites counted from the current source, "
             "plus differential/fuzz streams feeding each real decoder under recover() with cap==len inputs.",
-    "note": "Trusted: Lean kernel; the Go harness; external parsers not modelled. Decoders covered at this commit are listed in evidence.",
+    "note": "Trusted: Lean kernel; the Go harness; external parsers not modelled. pion/stun, utls, net/http are run under recover() only.",
     "technique": "Lean 4 totality proofs over panic-explicit models + regenerated fault-site table + differential fuzz streams",
 }
